@@ -2248,20 +2248,21 @@ async fn run_hs(plan: HsPlan, server_rt: &tokio::runtime::Runtime, out: &Mutex<O
         let mut accepted = false;
         let mut note = None;
         match tokio::time::timeout(wd(), tokio::net::TcpStream::connect(addr)).await {
-            Ok(Ok(mut s)) if end.starts_with("frag") => {
+            Ok(Ok(mut s)) if end.starts_with("frag") || end.starts_with("stall") => {
                 // the upgrade request arrives in pieces (every byte on its own / three pieces with a stall in between)
                 use tokio::io::AsyncReadExt;
                 let _ = s.set_nodelay(true);
                 let text = format!("GET {}?who=7 HTTP/1.1\r\nHost: x\r\nConnection: Upgrade\r\nUpgrade: websocket\r\nSec-WebSocket-Version: 13\r\nSec-WebSocket-Key: dGhlIHNhbXBsZSBub25jZQ==\r\n\r\n", req);
                 let bytes = text.as_bytes();
+                let stall_ms: u64 = end.strip_prefix("stall").and_then(|x| x.parse().ok()).unwrap_or(20);
                 let cuts: Vec<usize> = if end == "frag1" { (1..=bytes.len()).collect() } else { vec![5, bytes.len() - 3, bytes.len()] };
                 let mut from = 0;
                 for (k, c) in cuts.iter().enumerate() {
                     let _ = s.write_all(&bytes[from..*c]).await;
                     let _ = s.flush().await;
                     from = *c;
-                    if end == "frag3" || k % 24 == 0 {
-                        tokio::time::sleep(Duration::from_millis(if end == "frag3" { 20 } else { 1 })).await;
+                    if end != "frag1" || k % 24 == 0 {
+                        tokio::time::sleep(Duration::from_millis(if end != "frag1" { stall_ms } else { 1 })).await;
                     }
                 }
                 let mut head = Vec::new();
@@ -2277,6 +2278,26 @@ async fn run_hs(plan: HsPlan, server_rt: &tokio::runtime::Runtime, out: &Mutex<O
                 if accepted {
                     if !hs_until(&cnt.connect, c0 + 1).await {
                         note = Some("hs-connect-callback-watchdog");
+                    }
+                    if end.starts_with("stall") {
+                        // a request frame that stalls in the middle of its REPE header for longer than any plausible
+                        // internal timer: the connection must simply wait (no disconnect callback meanwhile)
+                        let payload = RawFrame::request(1, false, 1, b"/echo", 2, b"1").to_vec();
+                        let mut frame = vec![0x82u8, 0x80 | payload.len() as u8, 0, 0, 0, 0];
+                        frame.extend_from_slice(&payload);
+                        let _ = s.write_all(&frame[..26]).await;
+                        let _ = s.flush().await;
+                        tokio::time::sleep(Duration::from_millis(stall_ms)).await;
+                        let early = cnt.disconnect.load(Ordering::SeqCst) - d0;
+                        let _ = s.write_all(&frame[26..]).await;
+                        let _ = s.flush().await;
+                        let mut got = [0u8; 2];
+                        let answered = tokio::time::timeout(wd(), s.read_exact(&mut got)).await.map(|r| r.is_ok()).unwrap_or(false);
+                        if early > 0 || cnt.disconnect.load(Ordering::SeqCst) > d0 {
+                            fails.push(("lifecycle.stall.spurious_disconnect".into(), format!("a frame stalled for {stall_ms} ms in mid-header: the disconnect callbacks ran although the peer was still connected")));
+                        } else if !answered {
+                            note = Some("stalled-request-not-answered");
+                        }
                     }
                     drop(s);
                     if !hs_until(&cnt.disconnect, d0 + 1).await {
@@ -2347,6 +2368,12 @@ async fn run_hs(plan: HsPlan, server_rt: &tokio::runtime::Runtime, out: &Mutex<O
         o.count(&format!("hs.{}", obs.split(' ').nth(1).unwrap_or("x")));
         o.case(&line, &obs, true);
     }
+}
+
+/// stalled handshakes and frames, each on its own server, all at once
+fn plan_stalls(thorough: bool) -> Vec<HsPlan> {
+    let ms: &[u64] = if thorough { &[300, 600, 1100, 2500, 5500, 11000] } else { &[300, 600, 1100] };
+    ms.iter().enumerate().map(|(i, m)| HsPlan { cfg: "/repe".into(), reqs: vec![(format!("st{i}"), "/repe".into(), format!("stall{m}"))] }).collect()
 }
 
 fn plan_hs() -> Vec<HsPlan> {
@@ -2655,6 +2682,7 @@ enum AnyPlan {
     Life(Plan),
     Rx(RxPlan),
     Hs(HsPlan),
+    Stalls(Vec<HsPlan>),
     Burst(BurstPlan),
 }
 
@@ -2715,29 +2743,32 @@ fn entry_point_audit(out: &mut Out) {
 
 fn main() {
     let args = Args::parse();
+    // the release-profile twin of the thorough tier runs the quick-sized plan (its point is cfg(debug_assertions) off)
+    let deep = args.thorough() && !args.has("--release-profile");
     quiet_panics();
     let mut out = Out::new(&args.out);
     out.rule = "one case = one connection driven through (entry × phase × exit cause) on a real server, 1..32 connections per server instance concurrently; every valid combination of the matrix is generated once per round (quick: 4 rounds, thorough: 40) with random hook counts (1-3 plain, 0-2 handshake-aware connect callbacks, 1-3 disconnect callbacks), registry on/off, notifies per connect callback, the callback the connection is held in / that panics; non-trivial = the connection was accepted or its handshake failed as scripted and its callbacks' trace was compared (all cases). Registry scripts (rx lines; quick 60, thorough 600 scripts of 10-25 steps on serve_listener / serve_connection / adopt_upgraded servers with with_peer_registry): up to 5 live connections whose connect hook registers 0-3 aliases (a shared user key first, so later connections take over non-newest aliases), alias calls from inline and off-reader handlers, alias calls kept in flight (key conversion blocks until the peer is removed) while the connection ends by Close / drop / malformed frame; after every step get_by for every key ever used and get / aliases_for / key_for for every connection ever opened are compared with C18's model and with the harness's own reading of the history".into();
     entry_point_audit(&mut out);
-    THOROUGH.store(args.thorough(), Ordering::SeqCst);
+    THOROUGH.store(deep, Ordering::SeqCst);
     let mut rng = Rng::new(args.seed);
     let plans: Vec<AnyPlan> = match args.replay_ops() {
         Some(ops) => parse_replay(&ops),
         None => {
             // registry scripts first (cheap), then the lifecycle matrix
-            let nrx = if args.thorough() { 600 } else { 60 };
+            let nrx = if deep { 600 } else { 60 };
             let mut v: Vec<AnyPlan> = plan_hs().into_iter().map(AnyPlan::Hs).collect();
-            v.extend(plan_burst(&mut rng, args.thorough()).into_iter().map(AnyPlan::Burst));
-            v.extend(plan_hsrun(args.thorough()).into_iter().map(AnyPlan::HsRun));
+            v.push(AnyPlan::Stalls(plan_stalls(deep)));
+            v.extend(plan_burst(&mut rng, deep).into_iter().map(AnyPlan::Burst));
+            v.extend(plan_hsrun(deep).into_iter().map(AnyPlan::HsRun));
             v.extend((0..nrx).map(|i| AnyPlan::Rx(plan_rx(&mut rng, 100_000 + i))));
-            v.extend(plan(&mut rng, args.thorough()).into_iter().map(AnyPlan::Life));
+            v.extend(plan(&mut rng, deep).into_iter().map(AnyPlan::Life));
             v
         }
     };
     let server_rt = tokio::runtime::Builder::new_multi_thread().worker_threads(48).max_blocking_threads(256).enable_all().thread_name("srv").build().unwrap();
     let small_rt = tokio::runtime::Builder::new_multi_thread().worker_threads(4).max_blocking_threads(1).enable_all().thread_name("srv-small").build().unwrap();
     let client_rt = tokio::runtime::Builder::new_multi_thread().worker_threads(4).enable_all().thread_name("cli").build().unwrap();
-    let settle = Duration::from_millis(if args.thorough() { 60 } else { 30 });
+    let settle = Duration::from_millis(if deep { 60 } else { 30 });
     let out = Mutex::new(out);
     let stop = AtomicBool::new(false);
     client_rt.block_on(async {
@@ -2760,6 +2791,9 @@ fn main() {
                 }
                 AnyPlan::Rx(p) => run_rx(p, &server_rt, &out).await,
                 AnyPlan::Hs(p) => run_hs(p, &server_rt, &out).await,
+                AnyPlan::Stalls(ps) => {
+                    futures_util::future::join_all(ps.into_iter().map(|p| run_hs(p, &server_rt, &out))).await;
+                }
                 AnyPlan::Burst(p) => run_burst(p, &server_rt, &out).await,
                 AnyPlan::HsRun(p) => run_hsrun(p, &server_rt, &out).await,
             }
